@@ -16,6 +16,24 @@ Part A  `sequences`  operation sequences (deviation-bounded around the default
         (`sweep` is enabled when the last reactor is unswept, `post` when it is
         swept and not yet post-processed; every prefix of a sequence is checked
         because the oracle runs after EVERY operation).
+        Family `orif` (core2 with an [Orificing] section grouping type A, type R
+        ungrouped) has the alphabet extended by the steps of the orificing
+        driver on the real `dassh.orificing.Orificing(inp)` object, arguments
+        derived the way the driver derives them:
+            oparam  _setup_input_parametric(id, name, loc, power) for the first
+                    grouped type + Reactor(<that input>, calc_power=False)
+                    (run_parametric)
+            operf   _setup_input_perfect() + Reactor of its time point 0
+                    (run_dassh_perfect)
+            oorif   group_by_power() once (one saved Reactor per time point
+                    built from the base input: _get_power), then
+                    _setup_input_orifice(flows) + Reactor of its time point 0
+                    (run_dassh_orifice)
+        (always enabled; they leave the "last constructed reactor" alone); it
+        runs every sequence that contains at least one of them.  The same
+        oracle follows: the BASE input deep-equals its parse snapshot (data and
+        other attributes), the step succeeds, a later c0 / c1 / clone from the
+        base input equals the fresh-process reference.
         Oracle after every operation:
           * `DASSH_Input.data` deep-equals the snapshot taken right after
             parsing (own deep comparison: nested dicts / lists / arrays; an
@@ -60,8 +78,8 @@ Flat scenario fields for known-finding matching: part, family, history
 ('c0>sweep>c1'), depth | ntp, mode, workers, orderstr; on a violation also
 `at` (index of the operation), `op`, `prefix` (history up to and including it).
 Kinds: input-mutated / input-attr-mutated (site = mutated path, user-chosen
-names replaced by `*`), construction-failed, sweep-failed, postprocess-failed
-(site = exception@file:function), model-differs, result-differs,
+names replaced by `*`), construction-failed, sweep-failed, postprocess-failed,
+orificing-step-failed (site = exception@file:function), model-differs, result-differs,
 postprocess-differs, files-differ, run-failed, directory-missing,
 directory-unexpected, reference-failed, hang.
 """
@@ -83,8 +101,13 @@ from .. import REPO
 
 PY = '/venv/bin/python'
 RX_ARGS = {'save_reactor': False, 'verbose': False, 'no_power_calc': True}
-FAMILIES = ['plain', 'fuel', 'pin', 'hotspot', 'tables', 'core2']
+FAMILIES = ['plain', 'fuel', 'pin', 'hotspot', 'tables', 'core2', 'orif']
+# `orif` carries an [Orificing] section: `python -m dassh` would start the whole
+# optimisation on it, so it takes part in the operation sequences only
+SCHEDULE_FAMILIES = [f for f in FAMILIES if f != 'orif']
 OPS = ['c0', 'c1', 'clone', 'sweep', 'post']
+ORIF_OPS = ['oparam', 'operf', 'oorif']      # only for the family `orif`
+PARAM_POWER = 30000.0     # W, "average power of the assembly type" handed to oparam
 DEFAULT_HISTORY = ['c0', 'sweep', 'post']
 CHILD_BUDGET = 120
 
@@ -132,7 +155,9 @@ def scenario(family, ntp, first_tp=0, parallel=None, n_cpu=None):
                files shared between time points (see power_index);
       hotspot  boundary condition OUTLET_TEMP (flow rate derived from the power
                of the time point);
-      core2    one assembly with DELTA_TEMP, two with FLOWRATE."""
+      core2    one assembly with DELTA_TEMP, two with FLOWRATE;
+      orif     core2 with FLOWRATE everywhere plus an [Orificing] section that
+               groups the two assemblies of type A (type R is not grouped)."""
     setup = {'axial_mesh_size': 0.01}
     kw = {}
     mats = None
@@ -155,7 +180,7 @@ def scenario(family, ntp, first_tp=0, parallel=None, n_cpu=None):
                              'axial_positions': [0.033, 0.1]},
                 'duct_tab': {'type': 'duct_mw', 'assemblies': [1],
                              'axial_positions': [0.05]}}})
-    elif family == 'core2':
+    elif family in ('core2', 'orif'):
         setup['Dump'] = {'average': True, 'maximum': True, 'gap': True}
     d = S.design(2, pd=1.2, hd=30, oftf=0.03, **kw)
     tps = list(range(first_tp, first_tp + ntp))
@@ -165,7 +190,7 @@ def scenario(family, ntp, first_tp=0, parallel=None, n_cpu=None):
     if family == 'hotspot':
         # 2.9 kW * (1 + 0.25 t) over 26.85 K: 0.086 kg/s at time point 0
         scn['assign'] = [['A', 1, 1, {'outlet_temp': 650.0}]]
-    if family == 'core2':
+    if family in ('core2', 'orif'):
         refl = S.design(2, pd=1.1, hd=20, oftf=0.03, clearance='loose',
                         lowfi={'model': 'simple', 'convection_factor': 0.8})
         scn['types'] = {'A': d, 'R': refl}
@@ -174,6 +199,11 @@ def scenario(family, ntp, first_tp=0, parallel=None, n_cpu=None):
         scn['assign'] = [['A', 1, 1, {'flowrate': 1.5}],
                          ['R', 2, 1, {'flowrate': 0.5}],
                          ['A', 2, 2, {'delta_temp': 15.0}]]   # 1.2 kg/s at tp 0
+        if family == 'orif':
+            scn['assign'][2][3] = {'flowrate': 1.2}
+            scn['orificing'] = {'assemblies_to_group': ['A'], 'n_groups': 2,
+                                'value_to_optimize': 'peak coolant temp',
+                                'bulk_coolant_temp': 650.0, 'iteration_limit': 2}
         scn['core']['gap_model'] = 'flow'
         scn['core']['bypass_fraction'] = 0.3
         asm = {'1': [_power(t, 10.0) for t in dist],
@@ -521,15 +551,18 @@ def file_diff(exp, got):
 
 # ======================================================================
 # Part A
-def sequences(depth):
+def sequences(depth, ops=None):
+    ops = ops or OPS
     out = []
 
     def rec(seq, has, swept, posted):
         if len(seq) == depth:
             out.append(seq)
             return
-        for op in OPS:
-            if op in ('c0', 'c1', 'clone'):
+        for op in ops:
+            if op in ORIF_OPS:      # do not touch the last constructed reactor
+                rec(seq + [op], has, swept, posted)
+            elif op in ('c0', 'c1', 'clone'):
                 rec(seq + [op], True, False, False)
             elif op == 'sweep' and has and not swept:
                 rec(seq + [op], True, True, False)
@@ -547,9 +580,15 @@ def departures(seq):
 
 def cases_sequences(tier):
     depth = 3 if tier == 'quick' else 4
-    seqs = sorted(sequences(depth), key=lambda s: (departures(s), s))
     out = []
     for fam in FAMILIES:
+        ops = OPS + ORIF_OPS if fam == 'orif' else OPS
+        seqs = sorted(sequences(depth, ops), key=lambda s: (departures(s), s))
+        if fam == 'orif':
+            # every sequence without an orificing step is the core2 alphabet on
+            # an input that differs only by the (unused) section: keep those
+            # with at least one orificing step
+            seqs = [s for s in seqs if any(op in ORIF_OPS for op in s)]
         for s in seqs:
             out.append({'part': 'sequences', 'family': fam, 'ops': s,
                         'history': '>'.join(s), 'depth': depth,
@@ -562,6 +601,41 @@ def _construct(inp, wd, tp):
     import dassh
     return dassh.Reactor(inp, calc_power=RX_ARGS['no_power_calc'], path=wd,
                          timestep=tp, write_output=True)
+
+
+ORIF_DOC = {
+    'oparam': 'Orificing._setup_input_parametric for the first grouped type, then '
+              'Reactor(<that input>, calc_power=False) as run_parametric does',
+    'operf': 'Orificing._setup_input_perfect, then the Reactor of its time point 0',
+    'oorif': 'Orificing.group_by_power (one saved Reactor per time point from the base '
+             'input, once), _setup_input_orifice(flow per grouped assembly), then the '
+             'Reactor of its time point 0 as run_dassh_orifice does'}
+
+
+def _orificing(inp):
+    import dassh.orificing
+    return dassh.orificing.Orificing(inp)
+
+
+def _orificing_step(orf, inp, op, wd):
+    """one step of the orificing driver on the real object; every argument is
+    derived from the parsed input / the object the way the driver derives it"""
+    import dassh
+    if op == 'oparam':
+        name = orf.orifice_input['assemblies_to_group'][0]
+        pos = inp.data['Assignment']['ByPosition']
+        i = [j for j, k in enumerate(pos) if k and k[0] == name][0]
+        d = orf._setup_input_parametric(i, name, tuple(pos[i][1][:2]), PARAM_POWER)
+        return dassh.Reactor(d, calc_power=False)
+    if op == 'operf':
+        d = orf._setup_input_perfect()
+        return _construct(d, wd, 0)
+    if not hasattr(orf, 'group_data'):
+        orf.group_by_power()
+    n = orf.group_data.shape[0]
+    d = orf._setup_input_orifice(np.array([1.0 + 0.2 * j for j in range(n)]))
+    d.path = wd
+    return _construct(d, wd, 0)
 
 
 def _freeze_input(inp, fz):
@@ -631,9 +705,26 @@ def _sequence_child(c, refs):
         bump('input_state', c['family'] + ':parsed:' + digest(snap_data))
         last = None
         n_built = 0
+        orf = None
         for i, op in enumerate(ops):
             bump('ops', op)
-            if op in ('c0', 'c1', 'clone'):
+            if op in ORIF_OPS:
+                wd = os.path.join(b.dir, 'w_%d' % i)
+                try:
+                    if orf is None:
+                        orf = _orificing(inp)
+                    _orificing_step(orf, inp, op, wd)
+                except (KeyboardInterrupt, Hang):
+                    raise
+                except BaseException as e:
+                    flag('orificing-step-failed', i,
+                         '%s (%s) raised %s: %s' % (op, ORIF_DOC[op], type(e).__name__,
+                                                    str(e)[:200]),
+                         type(e).__name__, 'completes', site_of(e))
+                else:
+                    r['transitions'] += 1
+                n_built += 1
+            elif op in ('c0', 'c1', 'clone'):
                 tp = 1 if op == 'c1' else 0
                 wd = os.path.join(b.dir, 'w_%d' % i)
                 src = inp
@@ -655,6 +746,8 @@ def _sequence_child(c, refs):
                 else:
                     r['transitions'] += 1
                     bump('constructions', 'first' if n_built == 0 else 'from-used-input')
+                    if any(o in ORIF_OPS for o in ops[:i]):
+                        bump('constructions', 'after-orificing-step')
                     last = {'rx': rx, 'tp': tp, 'swept': False, 'posted': False, 'wd': wd}
                     for p, e_, o_ in diffs(refs[tp]['model'], fzr.freeze(rx))[:6]:
                         flag('model-differs', i,
@@ -956,7 +1049,7 @@ def cases_schedules(tier):
     the six (time points, n_cpu) pairs QUICK_POOL for the others.  The slow
     subprocess cases come first (load balance only)."""
     slow, fast = [], []
-    for fam in FAMILIES:
+    for fam in SCHEDULE_FAMILIES:
         for n in (1, 2, 3, 4):
             fast.append({'part': 'schedules', 'family': fam, 'ntp': n, 'mode': 'serial',
                          'workers': 0, 'orderstr': '-'})
@@ -971,7 +1064,7 @@ def cases_schedules(tier):
                     continue
                 slow.append({'part': 'schedules', 'family': fam, 'ntp': n, 'mode': 'pool',
                              'workers': w, 'orderstr': '-'})
-    for fam in FAMILIES:
+    for fam in SCHEDULE_FAMILIES:
         slow.append({'part': 'schedules', 'family': fam, 'ntp': 1, 'mode': 'fresh2',
                      'workers': 0, 'orderstr': '-'})
     slow.append({'part': 'schedules', 'family': 'tables', 'ntp': 2, 'mode': 'fresh2',
@@ -1091,7 +1184,10 @@ def main(run):
         'of exactly depth %d over {c0, c1, clone, sweep, post} (sweep enabled for an unswept '
         'last reactor, post for a swept one; shorter histories are the prefixes, the oracle '
         'runs after every operation), ordered by the number of departures from the default '
-        'history c0 > sweep > post; schedules: family x 1..4 time points x {serial loop, '
+        'history c0 > sweep > post; the family orif ([Orificing] section) has the alphabet '
+        'extended by the orificing steps {oparam, operf, oorif} (always enabled) and runs every '
+        'sequence with at least one of them; schedules: the six families without [Orificing] '
+        'x 1..4 time points x {serial loop, '
         'every task order of the in-process pool (1+2+6+24), real Pool with n_cpu 1..4 via '
         'python -m dassh} + two-fresh-processes runs; a case is non-trivial when the real '
         'code executed it and its outputs were compared with a reference produced from a '
@@ -1122,10 +1218,12 @@ def main(run):
 
     def vac(part, what, sc):
         run.violations.append(dict(violation('vacuous-alphabet', sc, what), part=part))
+    if not run.extra.get('constructions', {}).get('after-orificing-step'):
+        vac('sequences', 'no construction from the base input after an orificing step', {})
     if len(parsed) != len(FAMILIES):
         vac('sequences', 'expected %d distinct input snapshots (one per family), found %d'
             % (len(FAMILIES), len(parsed)), {'snapshots': sorted(parsed)})
-    for op in OPS:
+    for op in OPS + ORIF_OPS:
         if not run.extra.get('ops', {}).get(op):
             vac('sequences', 'operation %s never executed' % op, {'op': op})
     if not run.extra.get('constructions', {}).get('from-used-input'):
